@@ -168,14 +168,28 @@ pub async fn dexec(ops: &[DOp]) -> DOut {
                     if *s != *ssrc || got.len() != 1 || got[0].0 != *l { fails.push(("bind:ssrc-bound-to-other-than-receiver".into(), format!("step {i}: {s}->{l}"))); }
                     else if !routed { fails.push(("bind:ssrc-learnt-from-unrouted-packet".into(), format!("step {i}: {s}->{l} learnt from a packet routed by SSRC/provisional fallback"))); }
                 }
+                // ghost: listeners 2 and 3 stand for simulcast-layer listeners of receivers 0 and 1 (separate channels
+                // that never register a MID themselves, as in peer_connection.rs); their media section is their parent's
+                let section_of = |l: usize| -> Option<String> { section[l].clone().or_else(|| if l >= 2 { section[l - 2].clone() } else { None }) };
                 for (l, p) in &got {
-                    // "else by an unambiguous payload type": two open listeners registered this payload type, the SSRC is
-                    // unknown and no extension names the receiver → only the single provisional listener may get it
                     let by_ext = rid_named == Some(*l) || live_mid_owner == Some(*l);
                     let known_ssrc = pre.by_ssrc.iter().any(|e| e.0 == *ssrc);
+                    // "else by SSRC, else by an unambiguous payload type": an SSRC bound to an open listener A and no
+                    // RID / MID registration naming anybody ⇒ the receiver is A (stage order)
+                    if rid_named.is_none() && live_mid_owner.is_none() {
+                        if let Some((_, a)) = pre.by_ssrc.iter().find(|e| e.0 == *ssrc) {
+                            if *a < NL && rxs[*a].is_some() && a != l && mid_val.as_ref().map(|m| !mid_owner.contains_key(m)).unwrap_or(true) && rid_val.as_ref().map(|r| !rid_owner.contains_key(r)).unwrap_or(true) {
+                                fails.push(("demux:ssrc-bound-but-delivered-elsewhere".into(), format!("step {i}: SSRC {ssrc} is bound to open listener {a}, packet handed to {l}")));
+                            }
+                        }
+                    }
+                    // "else by an unambiguous payload type … dropped": two open listeners registered this payload type, the
+                    // SSRC is unknown and no extension names the receiver → the property drops the packet; the code's
+                    // provisional fallback hands it to the single provisional listener (known finding), anything else is new
                     let claimants = (0..NL).filter(|o| rxs[*o].is_some() && pts_of[*o].contains(pt)).count();
-                    if !by_ext && !known_ssrc && claimants >= 2 && !prov_of[*l] {
-                        fails.push(("demux:ambiguous-payload-type-delivered".into(), format!("step {i}: pt {pt} registered by {claimants} open listeners, handed to {l}")));
+                    if !by_ext && !known_ssrc && claimants >= 2 {
+                        let sig = if prov_of[*l] { "demux:ambiguous-pt-falls-to-provisional" } else { "demux:ambiguous-payload-type-delivered" };
+                        fails.push((sig.into(), format!("step {i}: pt {pt} registered by {claimants} open listeners, handed to {l}")));
                     }
                     delivered += 1;
                     if p.header.ssrc != *ssrc || p.header.payload_type != *pt { fails.push(("demux:delivered-packet-altered".into(), format!("step {i}"))); }
@@ -186,12 +200,18 @@ pub async fn dexec(ops: &[DOp]) -> DOut {
                         // the packet names its media section; the receiver's section (if it has one) must be that one
                         // (a MID whose registering listener has gone away counts as unregistered)
                         let live_owner = mid_owner.get(m).copied().filter(|o| rxs[*o].is_some());
-                        if let Some(sec) = &section[*l] { if sec != m && live_owner != Some(*l) {
+                        if let Some(sec) = section_of(*l) { if &sec != m && live_owner != Some(*l) {
                             let rid_hit = rid_val.as_ref().and_then(|r| rid_owner.get(r)) == Some(l);
-                            let sig = if rid_hit { "cross:rid-overrides-mid" }
-                                else if live_owner.is_none() { "cross:mid-unregistered-falls-through" }
-                                else { "cross:mid-registered-misdelivered" };
-                            fails.push((sig.into(), format!("step {i}: packet MID {m:?} handed to listener {l} of section {sec:?}")));
+                            let sig = if rid_hit { "cross:rid-overrides-mid".to_string() }
+                                else if live_owner.is_none() {
+                                    // which later stage caught the packet, and whether it taught the registry the SSRC
+                                    let via = if pre.by_ssrc.iter().any(|e| e.0 == *ssrc && e.1 == *l) { "via-ssrc" }
+                                        else if pts_of[*l].contains(pt) { "via-pt" } else if prov_of[*l] { "via-provisional" } else { "via-unknown" };
+                                    let rebinds = post.by_ssrc.iter().any(|e| e.0 == *ssrc && e.1 == *l) && !pre.by_ssrc.iter().any(|e| e.0 == *ssrc && e.1 == *l);
+                                    format!("cross:mid-unregistered-falls-through:{via}{}", if rebinds { ":binds-ssrc" } else { "" })
+                                }
+                                else { "cross:mid-registered-misdelivered".to_string() };
+                            fails.push((sig, format!("step {i}: packet MID {m:?} handed to listener {l} of section {sec:?}")));
                         } }
                     }
                 }
@@ -221,7 +241,11 @@ fn bede(elems: &[(u8, &[u8])]) -> (u16, Vec<u8>) {
     (0xBEDE, d)
 }
 
-/// the 7-item registration pool of the exhaustive scope (MID ext id 3, RID ext id 4)
+/// the 9-item registration pool of the exhaustive scope (MID ext id 3, RID ext id 4).  It contains the shape
+/// peer_connection.rs produces — a receiver registering provisional + MID + payload types on ONE channel
+/// (listener 0), a second receiver (listener 1), and their simulcast-layer listeners (2 → receiver 0,
+/// 3 → receiver 1) registering the SAME RID on separate channels without a MID.
+pub const NPOOL: usize = 9;
 fn pool_item(k: usize) -> DOp {
     match k {
         0 => DOp::Ssrc(S[0], 0),
@@ -230,7 +254,9 @@ fn pool_item(k: usize) -> DOp {
         3 => DOp::Mid("1".into(), 1),
         4 => DOp::Pts(vec![96, 97], 0),
         5 => DOp::Pts(vec![97, 98], 1),
-        _ => DOp::Prov(2),
+        6 => DOp::Prov(2),
+        7 => DOp::Prov(0),
+        _ => DOp::Rid("a".into(), 3),
     }
 }
 /// the 12-packet alphabet
@@ -308,13 +334,24 @@ fn rand_dop(rng: &mut Rng) -> DOp {
 #[derive(Clone, Debug)]
 pub struct BRule { mp: Option<u8>, fixed: Option<u32>, off: u32, op: Option<u8>, mid_ext: Option<u8>, mid: Option<String> }
 #[derive(Clone, Debug)]
-pub struct BCfg { strip: bool, init_seq: Option<u16>, init_off: Option<u32>, init_out: Option<u32>, has_video: bool, vpts: Vec<u8>, rules: Vec<BRule> }
+pub struct BCfg { strip: bool, init_seq: Option<u16>, init_off: Option<u32>, init_out: Option<u32>, has_video: bool, vpts: Vec<u8>, rules: Vec<BRule>,
+    /// > 0: the audio target is a MANDATORY-SRTP transport that gets its keys only before packet `hold` — the
+    /// pushes of earlier audio packets are refused after the rewrite (sequence numbers consumed, nothing sent)
+    hold: usize,
+    /// Some: the bridge is installed through the legacy `bridge_rewrite_to(dst, params)` API
+    legacy: Option<Legacy> }
+#[derive(Clone, Debug)]
+pub struct Legacy { off: u32, fixed: Option<u32>, pt: Option<u8>, dtmf: Option<(u8, u8)> }
 #[derive(Clone, Debug)]
 pub struct BPkt { ssrc: u32, pt: u8, seq: u16, ts: u32, marker: bool, ext: Option<(u16, Vec<u8>)> }
 
 fn o<T: ToString>(x: &Option<T>) -> String { x.as_ref().map(|v| v.to_string()).unwrap_or("-".into()) }
 
 fn bcfg_text(c: &BCfg) -> String {
+    if let Some(l) = &c.legacy {
+        return format!("params,{},{},{},{},{},{},{}", l.off, o(&l.fixed), o(&l.pt), l.dtmf.map(|(a, b)| format!("{a}.{b}")).unwrap_or("-".into()),
+            o(&c.init_seq), o(&c.init_off), c.strip as u8);
+    }
     let mut s = format!("cfg,{},{},{},{},{},{}", c.strip as u8, o(&c.init_seq), o(&c.init_off), o(&c.init_out), c.has_video as u8,
         if c.vpts.is_empty() { "-".into() } else { c.vpts.iter().map(|x| x.to_string()).collect::<Vec<_>>().join(".") });
     for r in &c.rules {
@@ -332,12 +369,18 @@ pub struct BOut { pub tokens: Vec<String>, pub outs: Vec<String>, pub fails: Vec
 
 pub async fn bexec(net: &Net, c: &BCfg, pkts: &[BPkt]) -> BOut {
     let src = RtpTransport::new(net.conn(0), false);
-    let dst_a = Arc::new(RtpTransport::new(net.conn(1), false));
+    let dst_a = Arc::new(RtpTransport::new(net.conn(1), c.hold > 0));
     let dst_v = Arc::new(RtpTransport::new(net.conn(2), false));
     let rules: Vec<RtpRewriteRule> = c.rules.iter().map(|r| RtpRewriteRule { match_payload_type: r.mp, fixed_out_ssrc: r.fixed, ssrc_offset: r.off,
         out_payload_type: r.op, sdes_mid_extension_id: r.mid_ext, sdes_mid: r.mid.clone() }).collect();
     let opts = RtpRewriteBridgeOptions { strip_extensions: c.strip, initial_sequence_number: c.init_seq, initial_timestamp_offset: c.init_off, initial_output_timestamp: c.init_out };
-    src.bridge_rewrite_rules_to_with_video(dst_a.clone(), if c.has_video { Some(dst_v.clone()) } else { None }, c.vpts.iter().copied().collect::<HashSet<u8>>(), opts, rules);
+    if let Some(l) = &c.legacy {
+        src.bridge_rewrite_to(dst_a.clone(), rustrtc::RtpRewriteBridgeParams { ssrc_offset: l.off, fixed_out_ssrc: l.fixed, payload_type: l.pt, dtmf_payload_type: l.dtmf,
+            initial_sequence_number: c.init_seq, initial_timestamp_offset: c.init_off, strip_extensions: c.strip });
+    } else {
+        src.bridge_rewrite_rules_to_with_video(dst_a.clone(), if c.has_video { Some(dst_v.clone()) } else { None }, c.vpts.iter().copied().collect::<HashSet<u8>>(), opts, rules);
+    }
+    let to_video = |pt: u8| c.legacy.is_none() && c.has_video && c.vpts.contains(&pt);
     let addr: SocketAddr = "127.0.0.1:4000".parse().unwrap();
     let mut mb = Vec::new();
     let mut unstable = false;
@@ -345,6 +388,7 @@ pub async fn bexec(net: &Net, c: &BCfg, pkts: &[BPkt]) -> BOut {
     let mut tokens = vec![];
     let mut known: HashSet<u32> = HashSet::new();
     for (i, p) in pkts.iter().enumerate() {
+        if c.hold > 0 && i == c.hold { dst_a.start_srtp(super::c14::session(10)); }
         let mut h = RtpHeader::new(p.pt, p.seq, p.ts, p.ssrc);
         h.marker = p.marker;
         if let Some((pr, d)) = &p.ext { h.extension = Some(RtpHeaderExtension::new(*pr, d.clone())); }
@@ -357,12 +401,25 @@ pub async fn bexec(net: &Net, c: &BCfg, pkts: &[BPkt]) -> BOut {
             if let Some(s) = snap.bridge_streams.iter().find(|s| s.0 == p.ssrc) { ra = s.2.wrapping_sub(1); rb = s.4; }
         }
         let e = match &p.ext { None => "-,-".to_string(), Some((pr, d)) => format!("{pr},{}", hex(d)) };
-        tokens.push(format!("k,{},{},{},{},{},{e},{ra},{rb}", p.ssrc, p.pt, p.seq, p.ts, p.marker as u8));
+        let refused = c.hold > 0 && i < c.hold && !to_video(p.pt);
+        tokens.push(format!("k,{},{},{},{},{},{e},{ra},{rb}{}", p.ssrc, p.pt, p.seq, p.ts, p.marker as u8, if refused { ",0" } else { "" }));
     }
     // collect the forwarded packets from both targets, ordered by the input index carried in the payload
     let mut got: BTreeMap<u32, Vec<(char, RtpPacket)>> = BTreeMap::new();
     for (ci, tag) in [(1usize, 'a'), (2usize, 'v')] {
+        // a mandatory audio target emits SRTP: recover the plaintext with a receiving rustrtc session keyed with the
+        // target's tx keys (stateful: follows the ROC across the 65535 → 0 wrap; the reference crate's header parser
+        // panics on the malformed extension blocks that legitimately pass through the bridge)
+        let mut dec = if ci == 1 && c.hold > 0 {
+            let (k, sa) = super::c14::keyset(10, 0);
+            Some(rustrtc::srtp::SrtpSession::new(rustrtc::srtp::SrtpProfile::Aes128Sha1_80, rustrtc::srtp::SrtpKeyingMaterial::new(k.clone(), sa.clone()), rustrtc::srtp::SrtpKeyingMaterial::new(k, sa)).unwrap())
+        } else { None };
         for b in net.drain(ci) {
+            let b = match dec.as_mut() {
+                Some(d) => match rustrtc::srtp::SrtpPacket::parse(bytes::BytesMut::from(&b[..])).ok().and_then(|sp| d.unprotect_rtp(sp).ok()).and_then(|p| p.marshal().ok()) {
+                    Some(pt) => pt,
+                    None => { got.entry(u32::MAX - 1).or_default().push((tag, RtpPacket::new(RtpHeader::new(0, 0, 0, 0), vec![]))); continue; } },
+                None => b };
             match RtpPacket::parse(&b) {
                 Ok(p) if p.payload.len() == 4 => { let i = u32::from_be_bytes([p.payload[0], p.payload[1], p.payload[2], p.payload[3]]); got.entry(i).or_default().push((tag, p)); }
                 _ => { got.entry(u32::MAX).or_default().push((tag, RtpPacket::new(RtpHeader::new(0, 0, 0, 0), vec![]))); }
@@ -373,45 +430,75 @@ pub async fn bexec(net: &Net, c: &BCfg, pkts: &[BPkt]) -> BOut {
     let mut outs = vec![];
     let mut fails = vec![];
     // ---- property oracle on the implementation's output (independent bookkeeping per source stream)
-    struct Track { out_ssrc: u32, last_seq: u16, last_in_ts: u32, last_out_ts: u32, pts: BTreeMap<u8, u8> }
+    struct Track { out_ssrc: u32, base_seq: u16, base_count: u32, last_in_ts: u32, last_out_ts: u32, pts: BTreeMap<u8, u8>, stale: bool }
+    let mut stale_new: HashSet<u32> = HashSet::new();
+    // per source: timestamp of the last IN-ORDER packet (first packet, or not older than the previous in-order one) — kept for
+    // refused packets too — and its output timestamp when that packet was seen on the wire
+    let mut anchors: BTreeMap<u32, (u32, Option<u32>)> = BTreeMap::new();
+    let mut consumed: BTreeMap<u32, u32> = BTreeMap::new(); // packets of each source rewritten so far (sent or refused)
     let mut tracks: BTreeMap<u32, Track> = BTreeMap::new();
     let (mut rebased, mut wrapped) = (false, false);
     for (i, p) in pkts.iter().enumerate() {
+        let nth = { let e = consumed.entry(p.ssrc).or_insert(0); *e += 1; *e - 1 };
+        let refused = c.hold > 0 && i < c.hold && !to_video(p.pt);
         match got.get(&(i as u32)) {
+            None if refused => {
+                outs.push("drop".into());
+                // the refused packet still advanced the stream's state; its output timestamp is unobservable
+                if tracks.get(&p.ssrc).is_none() { stale_new.insert(p.ssrc); }
+                let inorder = anchors.get(&p.ssrc).map(|a| p.ts.wrapping_sub(a.0) < 0x8000_0000).unwrap_or(true);
+                if inorder { anchors.insert(p.ssrc, (p.ts, None)); }
+            }
+            Some(_) if refused => { outs.push("emitted".into()); fails.push(("bridge:refused-push-emitted".into(), format!("packet {i} reached a mandatory target that had no keys"))); }
             Some(v) if v.len() == 1 => {
                 let (tag, q) = &v[0];
                 outs.push(format!("{tag}:{}", pkt_fields(q)));
-                let want_video = c.has_video && c.vpts.contains(&p.pt);
+                let want_video = to_video(p.pt);
                 if (*tag == 'v') != want_video { fails.push(("bridge:wrong-target".into(), format!("packet {i} pt {} went to {tag}", p.pt))); }
                 match tracks.get_mut(&p.ssrc) {
                     None => {
-                        if let Some(s0) = c.init_seq { if q.header.sequence_number != s0 { fails.push(("bridge:first-seq-not-initial".into(), format!("packet {i}: {} != {s0}", q.header.sequence_number))); } }
-                        if let Some(t0) = c.init_out { if q.header.timestamp != t0 { fails.push(("bridge:first-ts-not-pinned".into(), format!("packet {i}"))); } }
-                        else if let Some(off) = c.init_off { if q.header.timestamp != p.ts.wrapping_add(off) { fails.push(("bridge:first-ts-not-initial-offset".into(), format!("packet {i}"))); } }
+                        // the stream's numbering starts at the configured initial value with the source's FIRST packet, sent or not
+                        if let Some(s0) = c.init_seq { if q.header.sequence_number != s0.wrapping_add(nth as u16) { fails.push(("bridge:first-seq-not-initial".into(), format!("packet {i}: {} != {s0} + {nth}", q.header.sequence_number))); } }
+                        // a new stream carries the SSRC its first packet's rule prescribes
+                        if nth == 0 {
+                            let r0 = c.rules.iter().find(|r| r.mp == Some(p.pt)).or_else(|| c.rules.iter().find(|r| r.mp.is_none()));
+                            let want = match (&c.legacy, r0) { (Some(l), _) => l.fixed.unwrap_or(p.ssrc.wrapping_add(l.off)), (None, Some(r)) => r.fixed.unwrap_or(p.ssrc.wrapping_add(r.off)), (None, None) => p.ssrc };
+                            if q.header.ssrc != want { fails.push(("bridge:output-ssrc-not-per-rule".into(), format!("packet {i}: source {} → {}, the matched rule prescribes {want}", p.ssrc, q.header.ssrc))); }
+                        }
+                        if nth == 0 && !stale_new.contains(&p.ssrc) {
+                            if let Some(t0) = c.init_out { if q.header.timestamp != t0 { fails.push(("bridge:first-ts-not-pinned".into(), format!("packet {i}"))); } }
+                            else if let Some(off) = c.init_off { if q.header.timestamp != p.ts.wrapping_add(off) { fails.push(("bridge:first-ts-not-initial-offset".into(), format!("packet {i}"))); } }
+                        }
                         let mut pts = BTreeMap::new(); pts.insert(p.pt, q.header.payload_type);
-                        tracks.insert(p.ssrc, Track { out_ssrc: q.header.ssrc, last_seq: q.header.sequence_number, last_in_ts: p.ts, last_out_ts: q.header.timestamp, pts });
+                        tracks.insert(p.ssrc, Track { out_ssrc: q.header.ssrc, base_seq: q.header.sequence_number, base_count: nth, last_in_ts: p.ts, last_out_ts: q.header.timestamp, pts, stale: false });
                     }
                     Some(t) => {
                         if q.header.ssrc != t.out_ssrc { fails.push(("bridge:output-ssrc-not-stable".into(), format!("packet {i}: source {} mapped to {} then {}", p.ssrc, t.out_ssrc, q.header.ssrc))); }
-                        if q.header.sequence_number != t.last_seq.wrapping_add(1) { fails.push(("bridge:seq-not-consecutive".into(), format!("packet {i}: {} after {}", q.header.sequence_number, t.last_seq))); }
+                        // consecutive in arrival order: gaps exactly where a push was refused after the rewrite
+                        let want_seq = t.base_seq.wrapping_add((nth - t.base_count) as u16);
+                        if q.header.sequence_number != want_seq { fails.push(("bridge:seq-not-consecutive".into(), format!("packet {i}: {} instead of {want_seq}", q.header.sequence_number))); }
                         if q.header.sequence_number == 0 { wrapped = true; }
-                        t.last_seq = q.header.sequence_number;
                         let e = t.pts.entry(p.pt).or_insert(q.header.payload_type);
                         if *e != q.header.payload_type { fails.push(("bridge:output-pt-not-stable".into(), format!("packet {i}"))); }
-                        let delta = p.ts.wrapping_sub(t.last_in_ts);
-                        if delta < 0x8000_0000 {
-                            if delta <= 900_000 {
-                                if q.header.timestamp.wrapping_sub(t.last_out_ts) != delta { fails.push(("bridge:ts-delta-not-preserved".into(), format!("packet {i}: source delta {delta}, output delta {}", q.header.timestamp.wrapping_sub(t.last_out_ts)))); }
-                            } else { rebased = true; }
-                            t.last_in_ts = p.ts; t.last_out_ts = q.header.timestamp;
-                        } else if q.header.timestamp.wrapping_sub(t.last_out_ts) != delta {
-                            fails.push(("bridge:ts-delta-not-preserved".into(), format!("packet {i} (late packet): source delta {delta}")));
-                        }
+                        let _ = (t.last_in_ts, t.last_out_ts, t.stale);
                     }
                 }
+                // timestamps: relative to the source's last in-order packet, the output difference equals the source difference —
+                // for in-order steps up to the discontinuity threshold and for late packets alike
+                let anchor = anchors.get(&p.ssrc).copied();
+                let inorder = anchor.map(|a| p.ts.wrapping_sub(a.0) < 0x8000_0000).unwrap_or(true);
+                if let Some((ai, Some(ao))) = anchor {
+                    let delta = p.ts.wrapping_sub(ai);
+                    if !inorder || delta <= 900_000 {
+                        if q.header.timestamp.wrapping_sub(ao) != delta { fails.push(("bridge:ts-delta-not-preserved".into(), format!("packet {i}{}: source delta {delta}, output delta {}", if inorder { "" } else { " (late packet)" }, q.header.timestamp.wrapping_sub(ao)))); }
+                    } else { rebased = true; }
+                }
+                if inorder { anchors.insert(p.ssrc, (p.ts, Some(q.header.timestamp))); }
                 // per-rule payload type
                 let rule = c.rules.iter().find(|r| r.mp == Some(p.pt)).or_else(|| c.rules.iter().find(|r| r.mp.is_none()));
-                let want_pt = rule.and_then(|r| r.op).unwrap_or(p.pt);
+                let want_pt = match &c.legacy {
+                    Some(l) => match l.dtmf { Some((a, b)) if a == p.pt => b, _ => l.pt.unwrap_or(p.pt) },
+                    None => rule.and_then(|r| r.op).unwrap_or(p.pt) };
                 if q.header.payload_type != want_pt { fails.push(("bridge:output-pt-not-per-rule".into(), format!("packet {i}: {} want {want_pt}", q.header.payload_type))); }
             }
             Some(v) => { outs.push(format!("dup{}", v.len())); fails.push(("bridge:packet-forwarded-more-than-once".into(), format!("packet {i}"))); }
@@ -419,6 +506,7 @@ pub async fn bexec(net: &Net, c: &BCfg, pkts: &[BPkt]) -> BOut {
         }
     }
     if got.contains_key(&u32::MAX) { fails.push(("bridge:unparseable-output".into(), "a forwarded datagram does not parse / lost its payload".into())); }
+    if got.contains_key(&(u32::MAX - 1)) { fails.push(("bridge:mandatory-target-output-not-protected".into(), "a datagram on the mandatory target's connection does not authenticate under its keys".into())); }
     let snap = src.verif_registry_snapshot(&[]);
     outs.push(format!("S{}", snap.bridge_streams.iter().map(|s| format!("{}:{},{},{},{}", s.0, s.1, s.2, o(&s.3), s.4)).collect::<Vec<_>>().join(";")));
     src.clear_bridge_rewrite();
@@ -474,10 +562,10 @@ pub fn run(args: &Args) {
         //      is closed × all packet sequences up to length L over the 12-packet alphabet
         let maxlen = if args.tier_thorough { 3 } else { 2 };
         let mut n_ex = 0u64;
-        for subset in 0..(1usize << 7) {
+        for subset in 0..(1usize << NPOOL) {
             for closed in 0..4usize {
                 let mut pre = vec![DOp::MidExt(3), DOp::RidExt(4)];
-                for k in 0..7 { if subset & (1 << k) != 0 { pre.push(pool_item(k)); } }
+                for k in 0..NPOOL { if subset & (1 << k) != 0 { pre.push(pool_item(k)); } }
                 if closed > 0 { pre.push(DOp::Close(closed - 1)); }
                 for len in 1..=maxlen {
                     for idx in 0..NPKT.pow(len as u32) {
@@ -513,7 +601,7 @@ pub fn run(args: &Args) {
         for mask in 0..(1usize << 5) {
             if (mask as u32).count_ones() > 3 { continue; }
             let rules: Vec<BRule> = (0..5).filter(|k| mask & (1 << k) != 0).map(rule_pool).collect();
-            let cfg = BCfg { strip: false, init_seq: Some(65534), init_off: Some(0xFFFF_FF00), init_out: None, has_video: true, vpts: vec![97], rules };
+            let cfg = BCfg { strip: false, init_seq: Some(65534), init_off: Some(0xFFFF_FF00), init_out: None, has_video: true, vpts: vec![97], rules, hold: 0, legacy: None };
             for len in 1..=blen {
                 for idx in 0..NBSYM.pow(len as u32) {
                     let (mut cur, mut seqs) = ([1000u32, 0xFFFF_FE00], [10u16, 65530]);
@@ -538,7 +626,11 @@ pub fn run(args: &Args) {
             let cfg = BCfg { strip: rng.chance(1, 4), init_seq: if rng.chance(3, 4) { Some(*rng.pick(&[65534u16, 0, 65535, 1000])) } else { None },
                 init_off: if rng.chance(3, 4) { Some(*rng.pick(&[0u32, 0xFFFF_FF00, 12345])) } else { None },
                 init_out: if rng.chance(1, 4) { Some(rng.next() as u32) } else { None },
-                has_video: rng.chance(1, 2), vpts: if rng.chance(1, 2) { vec![97] } else { vec![] }, rules };
+                has_video: rng.chance(1, 2), vpts: if rng.chance(1, 2) { vec![97] } else { vec![] }, rules,
+                hold: if rng.chance(1, 5) { rng.range(1, 6) as usize } else { 0 },
+                legacy: if rng.chance(1, 5) { Some(Legacy { off: *rng.pick(&[0u32, 1000, 0xFFFF_FFFF]), fixed: if rng.chance(1, 2) { Some(rng.next() as u32) } else { None }, pt: if rng.chance(1, 2) { Some(8) } else { None }, dtmf: if rng.chance(2, 3) { Some((101, 96)) } else { None } }) } else { None } };
+            let mut cfg = cfg;
+            if cfg.legacy.is_some() { cfg.init_out = None; cfg.has_video = false; } // `bridge_rewrite_to` has neither a pinned first timestamp nor a video target
             let n = if rng.chance(1, 20) { rng.range(100, 200) } else { rng.range(1, 20) } as usize;
             let mut cur = [rng.next() as u32, 0xFFFF_FE00, 5];
             let mut pkts = vec![];
@@ -546,7 +638,10 @@ pub fn run(args: &Args) {
                 let s = rng.below(3) as usize;
                 let step = if rng.chance(7, 10) { 160 } else if rng.chance(1, 2) { *rng.pick(&STEPS) } else { rng.next() as u32 };
                 cur[s] = cur[s].wrapping_add(step);
-                let ext = match rng.below(6) { 0 => Some(bede(&[(5, b"xy")])), 1 => Some(bede(&[(3, b"9"), (1, b"abc")])), 2 => Some((0x1000u16, vec![3, 1, b'7', 0])), _ => None };
+                // existing blocks the MID stamp has to cope with: well-formed, two-byte profile, and MALFORMED one-byte
+                // blocks (an element running past the end: set_extension must return Err and leave the header alone)
+                let ext = match rng.below(8) { 0 => Some(bede(&[(5, b"xy")])), 1 => Some(bede(&[(3, b"9"), (1, b"abc")])), 2 => Some((0x1000u16, vec![3, 1, b'7', 0])),
+                    3 => Some((0xBEDEu16, vec![0x57, b'0', 0, 0])), 4 => Some((0xBEDEu16, vec![0x1F, 0, 0, 0])), 5 => Some((0xBEDEu16, vec![0x30, b'7', 0x2F, 1])), _ => None };
                 pkts.push(BPkt { ssrc: [0x100, 0x200, 0xFFFF_FFFF][s], pt: *rng.pick(&[0u8, 0, 0, 101, 97, 8]), seq: j as u16, ts: cur[s], marker: rng.chance(1, 10), ext });
             }
             bemit(&mut run, &net, &cfg, &pkts).await;
@@ -554,7 +649,7 @@ pub fn run(args: &Args) {
         run.count_n("bridge_random_sequences", nb);
         run.exhaustive = true;
         run.notes.insert("exhaustive_scope".into(), serde_json::json!(format!(
-            "demux: 2^7 registration subsets x 4 closed-listener choices x all packet sequences of length <= {maxlen} over 12 packets; bridge: 26 rule tables x all sequences of length <= {blen} over 16 symbols")));
+            "demux: 2^9 registration subsets x 4 closed-listener choices x all packet sequences of length <= {maxlen} over 12 packets; bridge: 26 rule tables x all sequences of length <= {blen} over 16 symbols")));
     });
     run.finish();
 }
@@ -609,7 +704,7 @@ fn parse_dop(t: &str) -> DOp {
 }
 fn parse_bridge(toks: &[&str]) -> (BCfg, Vec<BPkt>) {
     let on = |s: &str| if s == "-" { None } else { Some(s.parse::<u64>().unwrap()) };
-    let mut c = BCfg { strip: false, init_seq: None, init_off: None, init_out: None, has_video: false, vpts: vec![], rules: vec![] };
+    let mut c = BCfg { strip: false, init_seq: None, init_off: None, init_out: None, has_video: false, vpts: vec![], rules: vec![], hold: 0, legacy: None };
     let mut pkts = vec![];
     for t in toks {
         let f: Vec<&str> = t.split(',').collect();
@@ -618,8 +713,12 @@ fn parse_bridge(toks: &[&str]) -> (BCfg, Vec<BPkt>) {
                        c.has_video = f[5] == "1"; c.vpts = if f[6] == "-" { vec![] } else { f[6].split('.').map(|x| x.parse().unwrap()).collect() }; }
             "rule" => c.rules.push(BRule { mp: on(f[1]).map(|x| x as u8), fixed: on(f[2]).map(|x| x as u32), off: f[3].parse().unwrap(), op: on(f[4]).map(|x| x as u8),
                        mid_ext: on(f[5]).map(|x| x as u8), mid: if f[6] == "~" { None } else { Some(String::from_utf8(crate::unhex(f[6])).unwrap()) } }),
-            "k" => pkts.push(BPkt { ssrc: f[1].parse().unwrap(), pt: f[2].parse().unwrap(), seq: f[3].parse().unwrap(), ts: f[4].parse().unwrap(), marker: f[5] == "1",
-                       ext: if f[6] == "-" { None } else { Some((f[6].parse().unwrap(), crate::unhex(f[7]))) } }),
+            "params" => { c.legacy = Some(Legacy { off: f[1].parse().unwrap(), fixed: on(f[2]).map(|x| x as u32), pt: on(f[3]).map(|x| x as u8),
+                       dtmf: if f[4] == "-" { None } else { let d: Vec<u8> = f[4].split('.').map(|x| x.parse().unwrap()).collect(); Some((d[0], d[1])) } });
+                       c.init_seq = on(f[5]).map(|x| x as u16); c.init_off = on(f[6]).map(|x| x as u32); c.strip = f[7] == "1"; }
+            "k" => { if f.len() > 10 && f[10] == "0" { c.hold = pkts.len() + 1; } // a refused push: the audio target had no keys yet
+                     pkts.push(BPkt { ssrc: f[1].parse().unwrap(), pt: f[2].parse().unwrap(), seq: f[3].parse().unwrap(), ts: f[4].parse().unwrap(), marker: f[5] == "1",
+                       ext: if f[6] == "-" { None } else { Some((f[6].parse().unwrap(), crate::unhex(f[7]))) } }); }
             _ => {}
         }
     }
